@@ -5,6 +5,7 @@ locating the repository, the Lean driver client, float/rational transport,
 the proof audit, evidence and replay files, known findings.
 """
 
+import contextlib
 import fractions
 import hashlib
 import json
@@ -727,6 +728,26 @@ def session_logging(rng, p=0.25):
     finally:
         if level is not None:
             logging.root.setLevel(logging.WARNING)
+
+
+class CallTimeout(Exception):
+    pass
+
+
+@contextlib.contextmanager
+def time_limit(seconds):
+    """abandon a call into the implementation that does not return (SIGALRM; main thread only)"""
+    import signal
+
+    def on_alarm(_sig, _frm):
+        raise CallTimeout("no result after %d s" % seconds)
+    old = signal.signal(signal.SIGALRM, on_alarm)
+    signal.alarm(int(seconds))
+    try:
+        yield
+    finally:
+        signal.alarm(0)
+        signal.signal(signal.SIGALRM, old)
 
 
 def snapshot(obj):
